@@ -369,6 +369,7 @@ def run_c17(ctx, rng, job):
 
 
 def multi_case(ctx, rng, mod):
+    mod = util.fresh_module()      # (interfaces are re-based below: their (name, module) keys must be unique, DESIGN 2.5)
     grid = sig_grid()
     nmeth = rng.randint(1, 4)
     nattr = rng.randint(0, 3)
@@ -379,6 +380,14 @@ def multi_case(ctx, rng, mod):
         attrs['m%d' % i] = mkfunc('m%d' % i, **g)[0]
     for i in range(nattr):
         attrs['x%d' % i] = Attribute('attr %d' % i)
+    plain = [n for n in attrs if n.startswith('x')]
+    if plain and rng.random() < 0.4:
+        # names under which a description is filed need not be the description's own name: the same Attribute under
+        # a second key, and a one-word Attribute (whose text becomes its __name__)
+        attrs['alias'] = attrs[plain[0]]
+        attrs['oneword'] = Attribute('Oneword')
+        plain += ['alias', 'oneword']
+        ctx.count('multi_keys_differing_from_description_names')
     base_attrs = {}
     bm_g = dict(req=1, dflt=0, varargs=False, kwargs=False)
     if rng.random() < 0.6:      # names from a base interface count too
@@ -421,10 +430,11 @@ def multi_case(ctx, rng, mod):
         if any(not binds(sig, s) for s in call_shapes(g)):
             expected.append((BrokenMethodImplementation, name))
     inst_attrs = {}
-    for name in [n for n in attrs if n.startswith('x')] + (['bx'] if base_attrs else []):
+    for name in plain + (['bx'] if base_attrs else []):
         if rng.random() < 0.35:
             if not as_class:
-                expected.append((BrokenImplementation, name))    # classes are exempt for plain attributes
+                # (the failure is reported under the description's own name, which is not always the key)
+                expected.append((BrokenImplementation, getattr(attrs.get(name), '__name__', name)))    # classes are exempt for plain attributes
         else:
             if as_class or rng.random() < 0.5:
                 ns[name] = 1
@@ -447,6 +457,17 @@ def multi_case(ctx, rng, mod):
     check_verify(ctx, fn, I, cand, tentative, expected,
                  {'form': 'multi', 'class': as_class, 'declared': declared, 'tentative': tentative,
                   'methods': {k: str(v) for k, v in meth_g.items()}})
+    if base_attrs and rng.random() < 0.5:
+        # the hierarchy above the verified interface changes (an ancestor gets another base that asks for one more
+        # method); verification of the same candidate afterwards follows the new hierarchy
+        extra = InterfaceClass('IVX', (Interface,), {'zz_new': mkfunc('zz_new', req=1)[0]}, __module__=mod)
+        top.__bases__ = (extra,)
+        ctx.count('multi_reverified_after_ancestor_rebase')
+        check_verify(ctx, fn, I, cand, tentative, expected + [(BrokenImplementation, 'zz_new')],
+                     {'form': 'multi-after-ancestor-rebase', 'class': as_class, 'declared': declared, 'tentative': tentative})
+        top.__bases__ = (Interface,)
+        check_verify(ctx, fn, I, cand, tentative, expected,
+                     {'form': 'multi-after-ancestor-rebase-back', 'class': as_class, 'declared': declared, 'tentative': tentative})
     ctx.shape(('c17multi', as_class, declared, tentative, tuple(sorted(c.__name__ for c, _ in expected))), nontrivial=len(expected) >= 2)
 
 
